@@ -669,19 +669,24 @@ func runC03Child(cases string, res *Result) {
 		junk = append(junk, make([]byte, 16+(i%64)))
 	}
 	c03KeepAlive = append(c03KeepAlive, junk)
+	// the other process renders the cases in the opposite order: what a process rendered before is no input either
+	var all []Case
 	readCases(cases, func(c Case) {
-		if c.str("kind") != "render" {
-			return
+		if c.str("kind") == "render" {
+			all = append(all, c)
 		}
+	})
+	for i := len(all) - 1; i >= 0; i-- {
+		c := all[i]
 		id := c.num("id")
 		eng, err := c03Engine(c)
 		if err != nil {
-			return
+			continue
 		}
 		rng := rand.New(rand.NewSource(int64(id)))
 		ctx := c03BuildCtx(c, 0, rng)
 		res.Notes = append(res.Notes, fmt.Sprintf("%d %s", id, hx(c03Render(eng, ctx))))
-	})
+	}
 }
 
 // c03DateValues: fixed instants (the Unix epoch, the year 1, leap days, zones, far future; as time.Time, *time.Time
